@@ -80,7 +80,6 @@ static void run_queue(Scn& s, tbb::task_arena& A) {
     }
     s.sig = seq_sig(mix(0x51, kind), all);
     if (s.witness.load() == 0 && switches(all) >= 2) s.witness.store(1);
-    for (int p = 0; p < np; p++) if (ps.via_task[p]) ST.task_puts += ps.n[p];
     if (!s.fails) {
         Json j; j.obj(); j.kv("class", "queue"); j.kv("producers", np); j.kv("consumer_kind", kind); j.kv("releases", (long long)releases);
         j.key("leaving_order(producer:index)").arr(); for (size_t i = 0; i < all.size() && i < 24; i++) j.val(std::to_string(all[i] >> kIdBits) + ":" + std::to_string(all[i] & kIdMask)); j.end_arr();
